@@ -10,7 +10,8 @@ Report ==
        IF "pc" \in DOMAIN e
        THEN FetchOk(e) \/ PrintT("VERDICT " \o ToJson([id |-> e.id, at |-> 0, expect |-> FetchExpect(e)]))
        ELSE SessionOk(e) \/
-       LET i == Replay(InitMem(e.init), e.bpa, e.big, e.cmds, 1) IN
+       LET cm == Res(e)
+           i == Replay(InitMem(e.init), e.bpa, e.big, cm, 1) IN
        PrintT("VERDICT " \o ToJson([id |-> e.id, at |-> i,
-                 expect |-> PrintRows(MemAfter(InitMem(e.init), e.bpa, e.big, SubSeq(e.cmds, 1, i - 1), 1), e.bpa, e.big, e.cmds[i].w, e.cmds[i].a, e.cmds[i].b)]))
+                 expect |-> PrintRows(MemAfter(InitMem(e.init), e.bpa, e.big, SubSeq(cm, 1, i - 1), 1), e.bpa, e.big, cm[i].w, cm[i].a, cm[i].b)]))
 =============================================================================
